@@ -70,6 +70,7 @@ type CRLSpec struct {
 	UnknownNon  bool
 	Freshest    []byte // raw extension value (nil = absent)
 	FreshURIs   int    // URI locations that extension advertises (by construction)
+	Origin      string // URL this CRL was obtained from (served by / seeded for); provenance of the evidence
 	Entries     []CRLEntrySpec
 	// filled by EncodeCRL
 	DER  []byte
